@@ -384,20 +384,6 @@ Section Sem.
           end in
       let tuple_lit (c' : ctx) (fs : list (bytes * expr)) : res (list (bytes * value)) :=
           fold_left (fun acc '(k, e) => do a <- acc; do v <- eval f c' e; merge_field a k v) fs (Ok []) in
-      let instantiate (mv : value) (ovs : list (bytes * value)) : res value :=
-          match mv with
-          | VModule ps out body =>
-            do flds <- merge_fields ps ovs;
-            do flds <- merge_field flds (b "this") mv;
-            let c0 := {| sc := [(b "mod", VTuple flds)]; self_v := self_v c; envt := envt c;
-                         strict := strict c; eq_ordered := eq_ordered c |} in
-            do s <- exec_list f c0 body;
-            match out with
-            | Some oe => eval f (with_scope c0 s) oe
-            | None => Ok (VTuple (export_scope s true))
-            end
-          | _ => Err
-          end in
       match e with
       | ENull => Ok VNull
       | EBool v => Ok (VBool v)
@@ -496,19 +482,20 @@ Section Sem.
       | EFormatL parts args =>
         let holes := List.length (filter (fun p => match p with PHole => true | _ => false end) parts) in
         if negb (Nat.eqb holes (List.length args)) then Err
-        else do avs <- mapM ev args;
-             (fix go (ps : list tpart) (avs : list value) : res value :=
+        else (* the reference gives no evaluation order for the arguments; the implementation evaluates
+                (and renders) them right to left, which only shows in which of two failing arguments is reported *)
+             (fix go (ps : list tpart) (es : list expr) : res value :=
                 match ps with
                 | [] => Ok (VStr [])
-                | PStr s :: ps' => do r <- go ps' avs; match r with VStr t => Ok (VStr (s ++ t)) | _ => Err end
+                | PStr s :: ps' => do r <- go ps' es; match r with VStr t => Ok (VStr (s ++ t)) | _ => Err end
                 | PHole :: ps' =>
-                  match avs with
-                  | v :: avs' => do t <- render f v; do r <- go ps' avs';
-                                 match r with VStr t' => Ok (VStr (t ++ t')) | _ => Err end
+                  match es with
+                  | a :: es' => do r <- go ps' es'; do v <- ev a; do t <- render f v;
+                                match r with VStr t' => Ok (VStr (t ++ t')) | _ => Err end
                   | [] => Err
                   end
                 | PExpr _ :: _ => Err
-                end) parts avs
+                end) parts args
       | EFormatS parts arg =>
         do item <- ev arg;
         let c' := with_scope c ((b "item", item) :: sc c) in
@@ -517,7 +504,8 @@ Section Sem.
            | [] => Ok (VStr [])
            | PStr s :: ps' => do r <- go ps'; match r with VStr t => Ok (VStr (s ++ t)) | _ => Err end
            | PExpr pe :: ps' =>
-             do v <- eval f c' pe; do t <- render f v; do r <- go ps';
+             (* right to left, as the argument list above *)
+             do r <- go ps'; do v <- eval f c' pe; do t <- render f v;
              match r with VStr t' => Ok (VStr (t ++ t')) | _ => Err end
            | PHole :: _ => Err
            end) parts
@@ -624,7 +612,9 @@ Section Sem.
       | VModule ps out body =>
         do flds <- merge_fields ps ovs;
         do flds <- merge_field flds (b "this") tv;
-        let c0 := {| sc := [(b "mod", VTuple flds)]; self_v := self_v c; envt := envt c;
+        (* the reference does not say what `self` is inside a module body; the implementation leaves the
+           module being instantiated on the self stack, and so do we *)
+        let c0 := {| sc := [(b "mod", VTuple flds)]; self_v := Some tv; envt := envt c;
                      strict := strict c; eq_ordered := eq_ordered c |} in
         do s <- exec_list f c0 body;
         match out with
